@@ -216,10 +216,12 @@ EXTRA_PROPERTY_FILES = {
     "C06": ["C06own", "RefMod"],
     "C07": ["Refine"],
     "C10": ["RefMod"],
+    "C11": ["RefSched"],
     "C12": ["RefComp"],
     "C13": ["RefComp"],
     "C14": ["Refine"],
     "C16": ["RefMod"],
+    "C18": ["RefSched"],
     "C20": ["C20float"],
 }
 
